@@ -46,6 +46,24 @@ def gen(ctx: Ctx, n):
         finally:
             G.KEY_POOL = old
         cases.append((cfg, cache, script, g.used))
+    # values read with GET_VALUE and then fed to instructions that build a result from an operand (bitwise padding, concatenation,
+    # splitting, hashing, arithmetic): whatever type the embedder's value has, the embedder's object must not change
+    N = G.names()
+    def P(b): return G.push(b)
+    for i in range(max(40, n // 40)):
+        cfg = vmrun.Cfg()
+        key = rng.choice(['sigfield1', 'sigfield2', 'note', 'ключ'])
+        val = rng.choice([bytearray(V.rbytes(rng, rng.choice([1, 3, 8]))), V.rbytes(rng, rng.choice([1, 3, 8])), [bytearray(b'ab'), b'cd'], (b'x', bytearray(b'yz')), 'text', 7])
+        cache = {key: val, 'sigfield3': bytearray(b'\x01\x02')}
+        other = V.rbytes(rng, rng.choice([1, 4, 9, 16]))
+        gv = bytes([N['GET_VALUE'], len(key.encode())]) + key.encode()
+        follow = rng.choice([P(other) + bytes([N['XOR']]), P(other) + bytes([N['OR']]), P(other) + bytes([N['AND']]),
+                             P(other) + bytes([N['SWAP2'], N['XOR']]), P(other) + bytes([N['SWAP2'], N['AND']]), P(other) + bytes([N['SWAP2'], N['OR']]),
+                             P(other) + bytes([N['CONCAT']]), bytes([N['DUP'], N['CONCAT']]), bytes([N['NOT']]), bytes([N['SHA256']]),
+                             bytes([N['DUP'], N['XOR']]), P(b'\x01') + bytes([N['SPLIT']])])
+        script = gv + follow
+        if rng.random() < .3: script = bytes([N['TRY_EXCEPT']]) + G.u2(len(script)) + script + G.u2(0) + gv + follow
+        cases.append((cfg, cache, script, {'GET_VALUE': 1}))
     return cases
 
 
